@@ -217,7 +217,7 @@ prop("C14",
      thorough=[{"re": "^TestC14$", "checks": 900000, "shards": 10, "timeout": 1700},
                {"re": "^TestC14EndToEnd$", "checks": 72, "shards": 6, "timeout": 1700}],
      rule="histories of 0-10 checkpoint writes into a model target (loopback TCP): sources drawn from a set with prefix-related addresses "
-          "(h:637 / h:6379 / h:63790, 10.0.0.1:6379 / 10.0.0.1:63791 / 10.0.0.11:6379), dbs 0-15, strictly increasing offsets per source (some "
+          "(h:637 / h:6379 / h:63790, 10.0.0.1:6379 / 10.0.0.1:63791 / 10.0.0.11:6379) and foreign sources whose address ends with an own address (xh:637, 110.0.0.1:6379, my-h:6379), dbs 0-15, strictly increasing offsets per source (some "
           "> 2^33), run id + version with the first write into a db (as the sender does) or rewritten later, version in {1,0,2,absent}, partially "
           "written (no run id) and cleared run ids, user data in further dbs, plain or suffixed checkpoint key name. Oracle: reference resume rule "
           "from the statement over the final state (greatest own offset; its run id and db, or '?'/-1 when it lacks a run id; -1 when none; refused "
@@ -283,7 +283,7 @@ prop("C05",
      rule="reply framing: 0-5 leading newlines, '+FULLRESYNC <40 hex> <offset>' or '+CONTINUE' in random letter case, 0-5 newlines before '$<n>', n from 1 to "
           "40000 (full path 300000; thorough up to 40 MiB) at 1,2,7,8191-8193,16384 and random, RDB and command bytes made of protocol look-alikes ('\\n', "
           "'\\r\\n', '$5\\r\\n', '+CONTINUE\\r\\n', PING frames, 0x00, 0xff); the byte stream is split at generated positions (always candidates within +-2 of the "
-          "RDB/command boundary, inside/around the '$n' header, at 8192 multiples) with generated inter-segment delays, sent by a fake source over loopback "
+          "RDB/command boundary, inside/around the '$n' header, in the middle of the RDB and 9 bytes before its end, at 8192 multiples) with generated inter-segment delays (dump mode: up to 40 ms, so that the RDB tail and the first command bytes arrive in a read of their own), sent by a fake source over loopback "
           "TCP, and additionally fragmented on the reader side by a wrapper that caps each Read at scripted sizes; bufio sizes 16-65536, pipe 1-16 units, "
           "consumer read sizes/pauses scripted (back-pressure). Component level: utils.SendPSyncContinue + DbSyncer.runIncrementalSync; full path: the "
           "real sendPSyncCmd (32 MiB buffers); dump mode: dbDumper.dump to a temp file. Oracle: bytes read from the pipe == RDB||commands exactly, no "
@@ -307,10 +307,10 @@ prop("C07",
                {"re": "^TestC07Slow$", "checks": 480, "shards": 8, "timeout": 1700},
                {"re": "^TestC07Chunked$", "checks": 300, "shards": 6, "timeout": 1700}],
      rule="generated RDB (0-6 dbs in any order from 0..15, 0-6 keys each, every classic encoding, lua scripts, aux/resizedb/module-aux) x parallel 1..8 x "
-          "target.db in {-1,0,3} x db/key/slot(sync only)/lua filters x key_exists x pre-existing target keys x RESTORE or element route x an injected "
+          "target.db in {-1,0,3} x target version 5.0.7 (RESTORE ... REPLACE) or 6.0.5 (the tool's rule turns REPLACE off: rewrite becomes DEL + RESTORE) x db/key/slot(sync only)/lua filters x key_exists x pre-existing target keys x RESTORE or element route x an injected "
           "error reply for one key x a schedule script: the model target (loopback TCP) holds every connection's next command at a gate; a scheduler "
           "waits until all workers have connected, then releases one waiting connection at a time, chosen by the generated sequence, once all open "
-          "connections are waiting. Real DbSyncer.syncRDBFile / dbRestorer.restoreRDBFile. Oracle at return time: every record that passes the reference "
+          "connections are waiting; rarely (and in every TestC07Slow case) one reply is held back for 1.25-2.3 s, past the tool's one-second progress tick, so that the whole file has been read while entries are still unwritten. Real DbSyncer.syncRDBFile / dbRestorer.restoreRDBFile. Oracle at return time: every record that passes the reference "
           "filter is in its source db (or target.db) with the source value, restored exactly once, nothing else written, existing keys untouched under "
           "ignore, SCRIPT LOAD count == scripts passing filter.lua; busy key under none or an injected error => sync returns an error / restore mode "
           "aborts. Chunked: one hash of 16-40 MiB (boundaries placed around the chunk limit) restored by 2-4 workers under a generated schedule, with/without "
@@ -338,7 +338,7 @@ prop("C03",
      timing=True,
      quick=[{"re": "^TestC03$", "checks": 24, "shards": 4, "timeout": 600}],
      thorough=[{"re": "^TestC03$", "checks": 2800, "shards": 14, "timeout": 1700}],
-     rule=INCR_RULE + "Oracle: reference model written from the statement (source-selected db tracking, db filter, OPINFO/lua/sentinel-hello/MULTI/EXEC never "
+     rule=INCR_RULE + "Oracle: reference model written from the statement (source-selected db tracking, db filter, PING forwarded unless the selected db is filtered, OPINFO/lua/sentinel-hello/MULTI/EXEC never "
           "applied, reference key-filter rewrite from C13, destination db = source db or target.db) => expected sequence of (db, command, args); observed = "
           "the model target's command log in execution order with the db each command ran in (tool-own SELECT/MULTI/EXEC/checkpoint HSET and PING left out); "
           "sequences must be equal (order, exactly once, byte-identical args, right db) and complete within 5 s of the last source byte while the stream "
@@ -413,12 +413,12 @@ prop("C08",
           "idle gaps (0/0.2/0.6/1.1/2.5 s) spanning >= 3 ACK ticks, optionally one drop of the link (after everything sent was flushed) followed by 0-1 s of "
           "refused reconnects; the source answers the reconnect PSYNC as a master does (continues at the requested offset). The fake source records every "
           "REPLCONF ACK / PSYNC with the number of stream bytes it had sent by then. Oracle (timing-robust): ACK == 0 until the full phase is over; afterwards "
-          "never ahead of start + bytes sent, never decreasing, and exact once the stream has been idle for > 2 ticks; reconnect PSYNC == <same run id> "
+          "never ahead of start + bytes sent, never decreasing, never stale (what the source had handed to the socket 600 ms before the ACK arrived is acknowledged), and exact once the stream has been idle for > 2 ticks; reconnect PSYNC == <same run id> "
           "start + bytes sent before the drop + 1; the consumer of the pipe sees RDB || stream continue byte-exactly across the reconnect. (end to end) "
           "batches of 4-8 complete DbSyncer.Sync() runs with resume on against fake source + model target, starting fresh (PSYNC ? -1), from a checkpoint left by an "
           "earlier run that the source answers with +CONTINUE, or from one with an older run id that the source answers with FULLRESYNC under a new run id: LoadCheckpoint, PSYNC (first request checked), full sync of a small RDB, "
-          "then 5-18 commands (RPUSH/SELECT/PING) spread over >= 2.6 s with an optional drop: target applies exactly the source's commands once, reconnect "
-          "offset exact, and every checkpoint offset stored in the target == start (the resumed db announcement) or start + end position of the last source command of its group, under the run id that produced it (checked against "
+          "then 5-18 commands (RPUSH/SELECT/PING, 0-2 keep-alive newlines in front of each) spread over >= 2.6 s with an optional drop: target applies exactly the source's commands once and in order, reconnect "
+          "offset exact, and every checkpoint offset stored in the target == start (the resumed db announcement) or start + end position of the last source command forwarded up to and including its batch (not of a command still waiting), under the run id that produced it (checked against "
           "the number of data commands applied when it was stored). Non-trivial: >=2 ACKs or a drop; every end-to-end run. Distinct = hash of the script.",
      technique="property-based testing (rapid) with generated traffic/fault timelines against a recording fake replication source; history-invariant oracles over the recorded ACK/PSYNC trace; batched instances",
      level_text="Generated wall-clock histories spanning several acknowledgement ticks with injected link drops; the oracles are inequalities/equalities over the source-side trace that hold for every scheduling. A few dozen histories per quick run (each costs 4-8 s of wall time), thousands in thorough.",
